@@ -340,6 +340,11 @@ static int gnutls_verify_sha_pem(jwt_t *jwt, const char *head,
 			alg = GNUTLS_SIGN_EDDSA_ED25519;
 		else if (alg == GNUTLS_PK_EDDSA_ED448) {
 			alg = GNUTLS_SIGN_EDDSA_ED448;
+			/* RFC 8032 5.2.6: S occupies 57 octets and the last one
+			 * is always zero. GnuTLS does not look at that octet, so
+			 * check it here. */
+			if (sig_len != 114 || sig[113] != 0)
+				VERIFY_ERROR("Invalid Ed448 signature encoding");
 		} else {
 			VERIFY_ERROR("Unknown EdDSA key type"); // LCOV_EXCL_LINE
 		}
